@@ -17,7 +17,7 @@ func init() {
 		LevelText:   "Structural clauses decided for all paths: every stream / consumer-group operation that apply handles produces an activity event and every activity op constant is produced; the event id is the Raft index of the entry being handled and is what is recorded; the dispatcher advances its index only past non-command entries or after a successful publish, retries the same entry otherwise, and starts at last-published + 1; the event is published before its index is recorded through Raft; dispatch runs only with controller leadership. At-least-once across real fail-overs and ordering inside the activity partition are not decided. The activity manager's own publish does not pass through client authorisation.",
 		LevelNote:   "Trusted: go/ssa; Raft log store returns entries by index; the activity stream's own partition (C01/C03).",
 		DesignRef:   "DESIGN.md §4 C18",
-		Explanation: "R18.3 also (round 9): an internal publish resumes the partition; R14.6 (shared) ErrLogNotFound arrives unwrapped at the dispatcher. R18.3 also (F105): BecomeFollower forgets the channel it closes and the dispatcher waits on its own term's channel. R18.3 also: after a compacted entry the dispatcher resumes at the first retained index. R18.3 also: after a failed GetLog the dispatcher panics only for an error other than ErrLogNotFound or an index inside the log; an entry compacted away moves it to the first index (F72). R18.1 coverage tables, R18.2 event id identity, R18.3 order and retry in dispatch, R18.4 publish-then-record, R18.5 who may start dispatch / record the index, R18.6 the server's own publish is not put through client authorisation; R18.1 also requires each event to carry its payload and a handled op to be dropped only for a member-less group; R18.3 the exact wait test, the dispatcher start and a fresh stop channel per term. R15.8 (shared) activity.stream.* reach their Config fields. NOT decided: at-least-once across real fail-overs.",
+		Explanation: "Round 12: R18.3 also: every successful leadershipLost has passed BecomeFollower; R16.5 (shared) an ack completes a publish only when it names the stream published to, and publishSync is told that stream. R18.3 also (round 9): an internal publish resumes the partition; R14.6 (shared) ErrLogNotFound arrives unwrapped at the dispatcher. R18.3 also (F105): BecomeFollower forgets the channel it closes and the dispatcher waits on its own term's channel. R18.3 also: after a compacted entry the dispatcher resumes at the first retained index. R18.3 also: after a failed GetLog the dispatcher panics only for an error other than ErrLogNotFound or an index inside the log; an entry compacted away moves it to the first index (F72). R18.1 coverage tables, R18.2 event id identity, R18.3 order and retry in dispatch, R18.4 publish-then-record, R18.5 who may start dispatch / record the index, R18.6 the server's own publish is not put through client authorisation; R18.1 also requires each event to carry its payload and a handled op to be dropped only for a member-less group; R18.3 the exact wait test, the dispatcher start and a fresh stop channel per term. R15.8 (shared) activity.stream.* reach their Config fields. NOT decided: at-least-once across real fail-overs.",
 	})
 }
 
